@@ -333,6 +333,11 @@ func (qs *QueryService) ExecuteQuery(tbk *io.TimeBucketKey, start, end time.Time
 		)
 	}
 
+	// "no end" arrives as time.Unix(math.MaxInt64, 0), which overflows time.Time's
+	// internal representation and compares as before every other time
+	if end.Unix() > planner.MaxTime.Unix() {
+		end = io.ToSystemTimezone(planner.MaxTime)
+	}
 	query.SetRange(start, end)
 	parseResult, err := query.Parse()
 	if err != nil {
